@@ -22,8 +22,8 @@ RULE = ('seeded random histories of OMD operations (1-60 ops quick, to 200 thoro
         'states (pair lists) reached with >= 2 pairs and a repeated key')
 ASSUMPTIONS = [
     'keys and values come from a small pool of hashable str/int/float/bool/None/tuple objects (repeats dominate); reads are compared with ==, repr() with the exact text',
-    'popitem may remove any key (pop or poplast semantics); update_extend(self) is not generated '
-    '(the statement is silent on it)',
+    'popitem may remove any key (pop or poplast semantics); update_extend(self) may append all pairs or each '
+    'key\'s visible pair (the statement is silent on which), the model follows the real choice',
     'sort keys are total (repr-based) so tie order is unobservable',
 ]
 
@@ -288,6 +288,8 @@ class Run(object):
         same = cls()
         for k, v in L:
             same.add(k, v)
+        chk('eq[self]', lambda: d == d, True)
+        chk('ne[self]', lambda: d != d, False)
         chk('eq[omd,equal]', lambda: d == same, True)
         chk('eq[omd,equal,reflected]', lambda: same == d, True)
         chk('ne[omd,equal]', lambda: d != same, False)
@@ -445,6 +447,13 @@ class Run(object):
             if name == 'update':
                 expect(outcome(lambda: d.update(arg, **dict(kw))), ('ok', None), 'result[update]')
                 self.L = m_update(L, shape, pairs, kw)
+            elif name == 'update_extend' and shape == 'self':
+                # extending a multidict by itself: the statement does not say whether all of its pairs or each key's
+                # visible pair are appended; either way nothing may be lost, raise or disagree afterwards
+                expect(outcome(lambda: d.update_extend(arg, **dict(kw))), ('ok', None), 'result[update_extend]')
+                visible = list(m_last(L).items())
+                tail = [(k, v) for k, v in kw]
+                self.settle([list(L) + visible + tail, list(L) + list(L) + tail], 'update_extend(self)')
             elif name == 'update_extend':
                 expect(outcome(lambda: d.update_extend(arg, **dict(kw))), ('ok', None),
                        'result[update_extend]')
@@ -654,8 +663,7 @@ class Check(object):
             return [kind, {'k': k}]
         if kind in ('update', 'update_extend', 'ior'):
             shapes = ['list', 'tuple', 'iter', 'gen', 'dict', 'omd', 'minimal-mapping', 'dupkeys-mapping']
-            if kind != 'update_extend':
-                shapes.append('self')
+            shapes.append('self')
             shape = r.choice(shapes + (['gen-raises'] if r.random() < 0.5 else []))
             a = {'shape': shape}
             if shape != 'self':
